@@ -236,13 +236,14 @@ def run(ck, tier):
     ck.rule('R6', 'block getValues/setValues read and write exactly the addressed cells (shared with C18 R2/R3)')
     from .c18 import r2_sequential_getset, r3_sparse
     sub = type(ck)(ck.pid, ck.tier)
-    for r in (r2_sequential_getset, r3_sparse):
+    from .c18 import r1_sequential_validate
+    for r in (r1_sequential_validate, r2_sequential_getset, r3_sparse):
         sub.guard(r, sub, cx)
     for o in sub.obligations:
-        if str(o[1]).endswith(('.getValues', '.setValues')):
+        if str(o[1]).endswith(('.getValues', '.setValues', '.validate')):
             ck.obligations.append(('R6',) + tuple(o[1:]))
     for fnd in sub.findings:
-        if fnd.construct.endswith(('.getValues', '.setValues')):
+        if fnd.construct.endswith(('.getValues', '.setValues', '.validate')):
             ck.finding('R6', fnd.construct, fnd.detail, fnd.loc, fnd.message + ' — a write changes cells other than the addressed ones / a read returns other cells')
     ck.broken += sub.broken
     ck.assume('histories are not decided: that a read returns the latest write follows from R2 + C18 shapes, it is not itself checked')
